@@ -1163,6 +1163,9 @@ fn group_by_contents(
     groups
 }
 
+/// The time when the most recent call to [`group_files`] started.
+static GROUPING_STARTED: std::sync::Mutex<Option<DateTime<Local>>> = std::sync::Mutex::new(None);
+
 /// Groups identical files together by 128-bit hash of their contents.
 /// Depending on filtering settings, can find unique, duplicate, over- or under-replicated files.
 ///
@@ -1229,6 +1232,7 @@ fn group_by_contents(
 /// write_report(&config, &log, &groups).unwrap();
 /// ```
 pub fn group_files(config: &GroupConfig, log: &dyn Log) -> Result<Vec<FileGroup<FileInfo>>, Error> {
+    *GROUPING_STARTED.lock().unwrap() = Some(Local::now());
     let spinner = log.progress_bar("Initializing", ProgressBarLength::Unknown);
     let ctx = GroupCtx::new(config, log)?;
 
@@ -1281,7 +1285,10 @@ pub fn write_report(
     log: &dyn Log,
     groups: &[FileGroup<FileInfo>],
 ) -> io::Result<()> {
-    let now = Local::now();
+    // The timestamp of the report must not be later than the moment the first file was read.
+    // The dedupe commands skip the groups containing files modified after that timestamp,
+    // and files can be modified also while grouping is still in progress.
+    let now = GROUPING_STARTED.lock().unwrap().unwrap_or_else(Local::now);
 
     let total_count = file_count(groups.iter());
     let total_size = total_size(groups.iter());
